@@ -414,7 +414,7 @@ func TestVerifC17(t *testing.T) {
 			cases = append(cases, verifC17Case{Kind: kind, Size: sz, Pol: (i + len(kind)) % 3})
 		}
 	}
-	for i := 0; i < env.Pick(36, 400); i++ {
+	for i := 0; i < env.Pick(36, 200); i++ {
 		kind := kit.Pick(crng, []string{"random", "random", "random", "zero-runs", "repeated-block", "periodic", "zeros"})
 		sz := crng.Range(1, 3<<20)
 		switch crng.Intn(6) {
@@ -427,10 +427,10 @@ func TestVerifC17(t *testing.T) {
 		}
 		cases = append(cases, verifC17Case{Kind: kind, Size: sz, Pol: crng.Intn(3)})
 	}
-	for i := 0; i < env.Pick(2, 8); i++ {
+	for i := 0; i < env.Pick(2, 4); i++ {
 		cases = append(cases, verifC17Case{Kind: kit.Pick(crng, []string{"random", "zero-runs", "zeros", "periodic"}), Size: crng.Range(40<<20, 64<<20), Pol: i % 3})
 	}
-	for i := 0; i < env.Pick(14, 60); i++ {
+	for i := 0; i < env.Pick(14, 32); i++ {
 		sz := crng.Range(10<<20, 20<<20)
 		if i%5 == 0 {
 			sz = crng.Range(44<<20, 56<<20) // enough chunks after the edit for the re-synchronisation clause
